@@ -26,7 +26,9 @@ Starts == {"x = 1 + &", "x = 1 + & ! why", "call f(a, &", "s = 'abc&", "z = 3 &"
 Conts == {"  2", "& 2", "  & 2 + &", "    b)", "  &def'", "&   4 ! t", "  &c!d'", "  &g!h\"", "  &y\"", "  'w'"}
 Dirs == {"#if 1", "#ifdef X", "#else", "#endif", "#define X 1", "#  define Y \\", "  2", "#undef X", "# if defined(X) /* c */"}
 
-Lines == IF Profile = "small"
+Lines == IF Profile = "cont"
+         THEN {"s = 'abc&", "#ifdef X", "#endif", "! note", "  &def'", "x = 1 + &", "  2", "s = \"e!f&", "  &g!h\""}
+         ELSE IF Profile = "small"
          THEN {"x = 1", "s = 'a!b'", "s = \"c&d\"", "", "! note", "!$omp parallel", "x = 1 + &", "  2", "& 2", "s = 'abc&",
                "  &def'", "#define X 1", "#  define Y \\", "print *, 'x' ! trailing", "  ! 'quote", "x = 1 + & ! why", "s = 'it''s'",
                "s = \"save & ! text\"", "s = 'a!b&", "  &c!d'", "s = 'u ! v' // &", "  'w'", "s = \"e!f&", "  &g!h\"", "s = \"e!f\" // \"x&", "  &y\""}
